@@ -227,10 +227,10 @@ impl Check for C08 {
     fn cases(&self, tier: Tier) -> u64 {
         match tier {
             Tier::Quick => 480,
-            Tier::Thorough => 8000,
+            Tier::Thorough => 10000,
         }
     }
-    fn gen(&self, seed: u64, i: u64, _tier: Tier) -> Value {
+    fn gen(&self, seed: u64, i: u64, tier: Tier) -> Value {
         let r = Rng::new(crate::harness::case_seed(seed, "C08", i));
         let setups = Setup::all_basic();
         let setup = setups[(i % setups.len() as u64) as usize].clone();
@@ -261,9 +261,14 @@ impl Check for C08 {
         for t in TAMPERS {
             classes.push(("tamper_cache".into(), t.to_string()));
         }
-        let n_changes = match sr.below(10) {
-            0..=4 => 1,
-            5..=7 => 2,
+        // thorough: the first |classes|^2 cases walk through EVERY ordered pair of change
+        // classes (as far as the generated project has an eligible item for both)
+        let n_cl = classes.len() as u64;
+        let pair: Option<(usize, usize)> = if tier == Tier::Thorough && i < n_cl * n_cl { Some(((i / n_cl) as usize, (i % n_cl) as usize)) } else { None };
+        let n_changes = match (pair, sr.below(10)) {
+            (Some(_), _) => 2,
+            (None, 0..=4) => 1,
+            (None, 5..=7) => 2,
             _ => 3,
         };
         let mut steps: Vec<Step> = vec![];
@@ -276,7 +281,9 @@ impl Check for C08 {
             // the last change walks through all classes; earlier ones are random
             let mut tries = 0;
             loop {
-                let (kind, class) = if last && tries == 0 {
+                let (kind, class) = if let (Some((a, b)), 0) = (pair, tries) {
+                    classes[if last { b } else { a }].clone()
+                } else if last && tries == 0 {
                     classes[stratum % classes.len()].clone()
                 } else if !last && tries == 0 && n_changes == 2 {
                     // pairwise coverage: first of two changes walks through the classes at another stride
@@ -312,7 +319,7 @@ impl Check for C08 {
                 }
             }
             // a run between changes, sometimes
-            if !last && sr.chance(1, 2) {
+            if !last && pair.is_none() && sr.chance(1, 2) {
                 let entry = if both_entries_possible(&setup) && sr.chance(1, 2) { Some(if sr.chance(1, 2) { Entry::Cli } else { Entry::Build }) } else { None };
                 steps.push(Step { kind: "run".into(), label: "run".into(), desc: "non-forced run".into(), model: None, cfg: None, out: None, proc: Some(gen_proc(&mut sr)), entry, at: 0, mtime_mode: String::new(), proj_style: None });
             }
